@@ -41,6 +41,11 @@ CHECKS: dict[str, dict] = {
         technique="stateless schedule enumeration on the real asyncio loop: every peer write and the cancel request placed at every loop-iteration boundary (same-iteration races as bounded deviations, explicit coincidence with the scope deadline); blocking endpoint by complete enumeration of arrival instants",
         text="For every receive layer (transport recv/recv_into, both endpoint receive paths, blocking endpoint) and every canceller (task.cancel, canceller task, move_on_after, timeout) all relative orders of {read callback, cancel request, task wake-up} within the stated deviation bound: the data returned by the receives that completed is exactly the peer's stream.",
     ),
+    "C20": dict(
+        cat="model_checking", ref="DESIGN.md §3 C20", engine="E2 vloop + BFS over the real WriteFlowControl",
+        technique="explicit-state BFS to a fixpoint over the real WriteFlowControl object (state rebuilt by replaying the event history, canonical state hashing) plus deviation-bounded schedule enumeration of the real asyncio stream/datagram adapters on fake sockets",
+        text="Every reachable WriteFlowControl state (<= 3 waiters) satisfies: no waiter pending once resumed or lost, no leak in the waiter queue, suspended drains stay suspended while paused; on the real adapters a send returns only when its bytes/datagram left user space, suspended senders resume when the peer reads, fail on loss, and cancelling one does not strand the others.",
+    ),
 }
 
 NOT_YET: dict[str, str] = {}
